@@ -125,6 +125,7 @@ def run_case(case: dict):
     last: dict[str, Fraction] = {}
     admitted: dict[str, list] = {}
     exact: dict[str, bool] = {}
+    alldy: dict[str, bool] = {}  # every arrival time of the address so far (and the rate) is exactly representable
     refusals = 0
     greys = 0
     idle_gap = False
@@ -151,7 +152,8 @@ def run_case(case: dict):
         last[addr] = tq
         tk = tokens[addr]
         # with dyadic rate and times the implementation's float arithmetic is exact: no grey zone at exactly 1 token
-        dyadic = _dyadic(rate) and _dyadic(tq) and _dyadic(tk)
+        alldy[addr] = alldy.get(addr, _dyadic(rate)) and _dyadic(tq)
+        dyadic = alldy[addr] and _dyadic(tk)
         if tk >= 1 + EPS or (tk >= 1 and (dyadic or saturated)):
             if not allow:
                 return viol("refused-with-allowance-left", f"t={t} addr={addr}: exact bucket holds {float(tk):.6f} tokens, request refused")
